@@ -229,6 +229,9 @@ func (x *Exec) runBody(recv *ast.FieldList, ftype *ast.FuncType, body *ast.Block
 			x.noteAssume("assumed precondition of " + c.Key + " (not checked at call sites): " + r.Src)
 		} else if r.Prop != "" && !propIn(r.Prop, x.prop) {
 			continue
+		} else if strings.Contains(r.Prop, "!") {
+			// [Cnn!]: an obligation of the callers only; the body is verified without it
+			continue
 		}
 		st.assume(x.evalBool(r.Expr, st))
 	}
@@ -298,7 +301,7 @@ func (x *Exec) runBody(recv *ast.FieldList, ftype *ast.FuncType, body *ast.Block
 			x.checkExits(c, o, "panic")
 			continue
 		case outBreak, outContinue:
-			if o.out == outBreak && o.label == "" && (strings.HasPrefix(c.LitSel, "case:") || strings.HasPrefix(c.LitSel, "if:")) {
+			if o.label == "" && (strings.HasPrefix(c.LitSel, "case:") || strings.HasPrefix(c.LitSel, "if:")) && (o.out == outBreak || strings.HasPrefix(c.LitSel, "if:")) {
 				o.out = outNormal // break out of the switch whose clause is the unit
 				break
 			}
